@@ -363,5 +363,43 @@ def run_case(case, seed):
             return fail("file/missing-key", "key %s missing in a written file" % e)
         finally:
             os.chdir(cwd)
+    # "for a given Phonopy state": the state reached through the setters (after every path above has been used and has left its
+    # helper objects behind) answers like a fresh object put into that state
+    fc_b = 1.21 * np.array(ph.force_constants)
+    nac_b = None
+    if nac:
+        nac_b = dict(ph.nac_params)
+        nac_b["born"] = 0.8 * np.array(nac_b["born"])
+    ph.force_constants = fc_b.copy()
+    if nac_b:
+        ph.nac_params = dict(nac_b)
+    fresh = phx.make_phonopy(c, S, None, **({"factor": case["factor"]} if case.get("factor") else {}))
+    fresh.force_constants = fc_b.copy()
+    if nac_b:
+        fresh.nac_params = dict(nac_b)
+    fresh.run_qpoints(qs, with_group_velocities=True)
+    want = {k: np.array(v) for k, v in fresh.get_qpoints_dict().items() if v is not None}
+    gsc = 1e-6 * max(np.abs(want["group_velocities"]).max(), 1e-6)
+    for path in ("run_qpoints", "run_mesh", "run_band_structure"):
+        if path == "run_qpoints":
+            ph.run_qpoints(qs, with_group_velocities=True)
+            d = ph.get_qpoints_dict()
+            fgot, ggot, idx = np.array(d["frequencies"]), np.array(d["group_velocities"]), range(len(qs))
+        elif path == "run_mesh":
+            ph.run_mesh(MESH, is_mesh_symmetry=False, is_gamma_center=True, with_group_velocities=True)
+            d = ph.get_mesh_dict()
+            fgot, ggot, idx = np.array(d["frequencies"]), np.array(d["group_velocities"]), range(nmesh)
+        else:
+            if nac:
+                continue  # a path through Gamma carries a direction: not the same question
+            ph.run_band_structure([qs], with_group_velocities=True)
+            d = ph.get_band_structure_dict()
+            fgot, ggot, idx = np.array(d["frequencies"][0]), np.array(d["group_velocities"][0]), range(len(qs))
+        trans += 1
+        for k in idx:
+            if np.abs(fgot[k] - want["frequencies"][k]).max() > tol_f:
+                return fail("state/" + path, "after force_constants%s were replaced, frequencies at q=%s differ from a fresh object in the same state" % (" and nac_params" if nac else "", qs[k].round(4).tolist()))
+            if not same_gv(want["frequencies"][k], want["group_velocities"][k], ggot[k], tol_f, gsc):
+                return fail("state-group-velocity/" + path, "after force_constants%s were replaced, group velocities at q=%s differ from a fresh object in the same state" % (" and nac_params" if nac else "", qs[k].round(4).tolist()))
     complexD = bool(np.abs(ref["dynamical_matrices"].imag).max() > 1e-6 * dscale)
     return dict(ok=True, nontrivial=bool(complexD or nac), transitions=trans, outcome="ok:%s" % tag)
